@@ -12,7 +12,7 @@
    beyond about +-2^13 the i32 arithmetic of the code (not the unbounded model) is the limit anyway.
    Statements only; proofs in Proofs/JoinRange.v. *)
 From EG Require Import Base.Prelude Model.Geometry Model.Style Model.Line Model.Thickline Model.Join Model.JoinTri.
-From EG Require Import Proofs.Join Proofs.JoinTri Proofs.JoinRange.
+From EG Require Import Proofs.Join Proofs.JoinTri Proofs.JoinRange Proofs.JoinTotal.
 Set Default Timeout 60.
 
 (* Line::extents never fails (the model's fuel suffices) and stays within 6w+8 of the line *)
@@ -47,6 +47,25 @@ Theorem C07_join_triangle_bbox_translate_range : forall V d t w al, range_ok V w
   tri_within V t -> tri_within V (tr_tri d t) ->
   jt_styled_bounding_box (tr_tri d t) w al = option_map (fun bb => translate_rect bb d) (jt_styled_bounding_box t w al).
 Proof. exact jt_styled_bounding_box_tr_range. Qed.
+
+(* the (non-empty) styled bounding box of a thick polyline moves with the vertices *)
+Theorem C07_join_polyline_bbox_translate_range : forall V w d a b r, range_ok V w ->
+  Forall (within V) (a :: b :: r) -> Forall (within V) (map (tr_pt d) (a :: b :: r)) ->
+  poly_thick_bounding_box (map (tr_pt d) (a :: b :: r)) w =
+  option_map (fun bb => translate_rect bb d) (poly_thick_bounding_box (a :: b :: r) w).
+Proof. exact poly_thick_bounding_box_tr_range. Qed.
+
+(* totality: inside the range the model functions answer Some (None would mean: fuel of Line::extents exhausted), so the
+   equations above are not satisfied by None = option_map _ None *)
+Theorem C07_join_polyline_total_range : forall V w pts tr, range_ok V w -> Forall (within V) pts ->
+  (exists l, poly_thick_points pts tr w = Some l) /\ (exists rs, poly_thick_rects pts w = Some rs) /\
+  (exists bb, poly_thick_bounding_box pts w = Some bb).
+Proof. exact poly_total_range. Qed.
+
+Theorem C07_join_triangle_total_range : forall V w al fill t, range_ok V w -> tri_within V t ->
+  (exists px, jt_pixels t w al fill = Some px) /\ (exists dr, jt_draw t w al fill = Some dr) /\
+  (exists bb, jt_styled_bounding_box t w al = Some bb).
+Proof. exact tri_total_range. Qed.
 
 (* non-vacuity: the range contains +-4096 with stroke 681 and +-7000 with stroke 197, and the triangle of finding l moved across both
    axes is inside it *)
